@@ -1,7 +1,7 @@
 ------------------------------ MODULE MC_Codec ------------------------------
 EXTENDS Codec, Json
 
-Forms == {"F1", "F2", "F3", "F4", "F5", "F6", "F7", "F8"}
+Forms == {"F1", "F2", "F3", "F4", "F5", "F6", "F7", "F8", "F9"}
 Spellings == {"utf-8", "UTF-8", "utf8", "utf-8-sig", "latin-1", "Latin_1", "iso-8859-1", "cp1252",
               "windows-1252", "iso-8859-15", "latin9", "ascii", "us-ascii", "shift_jis", "sjis"}
 
@@ -11,13 +11,15 @@ MCCookiesQuick == (Forms \X {"cp1252"}) \cup ({"F1"} \X Spellings)
 \* slice "payload": one plain cookie per encoding
 MCCookiesPlain == {"F1"} \X {"utf-8", "latin-1", "cp1252", "iso-8859-15", "ascii", "shift_jis"}
 MCCookiesAll == Forms \X Spellings
+\* slice "convert": no cookie or a latin-1 cookie
+MCCookiesLatin == {<<"F1", "latin-1">>}
 
 \* byte table of the alphabet, checked against Python's codecs before anything else
 Table == { <<c, ClassCp[c], e, EncChar(ClassCp[c], e)>> : c \in DOMAIN ClassCp, e \in Encodings }
 ASSUME PrintT(<<"TAB", ToJson(Table)>>)
 
 FileRec(f) ==
-  [bom |-> f.bom, layout |-> f.layout, form |-> f.cookie[1], spelling |-> f.cookie[2],
+  [bom |-> f.bom, layout |-> f.layout, form |-> f.cookie[1], spelling |-> f.cookie[2], hp |-> f.hp,
    body |-> f.body, name |-> f.name, nl |-> f.nl, final |-> f.final]
 
 DefOffset(f) ==
@@ -36,7 +38,7 @@ StrLits(f) ==
 Behaviour ==
   [file0 |-> FileRec(file0), enc |-> DeclEnc(file0), effective |-> Effective(file0.layout),
    act |-> act,
-   bytes0 |-> disk0, text0 |-> Text(file0), strs0 |-> StrLits(file0),
+   pre |-> pre, bytes0 |-> disk0, text0 |-> Text(file0), strs0 |-> StrLits(file0),
    bytes1 |-> disk1, text1 |-> Read(disk1, DeclEnc(file0)).text,   \* = Text(file after the action) by ReadBack
    bytes2 |-> disk, undone |-> (phase = "undone"),
    off |-> IF act.op = "rename" THEN DefOffset(file0) ELSE 0,
